@@ -597,16 +597,6 @@ End Faults.
 End Pinned.
 
 (* ---------- the fault list of the property text is complete ---------- *)
-(* the single faults, as predicates on the set *)
-Definition F_board (cs : list chunk) : Prop := exists c c', In c cs /\ In c' cs /\ c_dev c <> c_dev c'.
-Definition F_chip (cs : list chunk) : Prop := exists c c', In c cs /\ In c' cs /\ c_chan c <> c_chan c'.
-Definition F_missing (cs : list chunk) : Prop := exists i, i < lenN cs /\ ~ In i (map c_id cs).
-Definition F_dup (cs : list chunk) : Prop := ~ NoDup (map c_id cs).
-Definition F_eom_absent (cs : list chunk) : Prop := exists c, In c cs /\ c_id c = lenN cs - 1 /\ c_eom c = false.
-Definition F_eom_early (cs : list chunk) : Prop := exists c, In c cs /\ c_id c <> lenN cs - 1 /\ c_eom c = true.
-Definition F_size (cs : list chunk) : Prop :=
-  exists c c0, In c cs /\ In c0 cs /\ c_id c0 = 0 /\ c_id c < lenN cs - 1 /\ lenN (c_payload c) <> lenN (c_payload c0).
-
 Lemma NoDup_N_dec (l : list N) : NoDup l \/ ~ NoDup l.
 Proof.
   induction l as [|a l IH]; [left; constructor|].
